@@ -453,6 +453,9 @@ func (r *rig) judge() *gx.Outcome {
 		}
 		for i := 0; i < r.accepted; i++ {
 			for j := 0; j < p.Icpt; j++ {
+				if p.IcptNil == j+1 {
+					continue // the nil entry of the chain records nothing
+				}
 				k := fmt.Sprintf("%s/%d", msgID(i), j)
 				if cnt[k] != 1 {
 					// a message rejected at shutdown is never intercepted, legitimately
@@ -478,6 +481,9 @@ func (r *rig) judge() *gx.Outcome {
 		for _, s := range r.icptLog {
 			id := s[:strings.Index(s, "/")]
 			j, _ := strconv.Atoi(s[strings.Index(s, "/")+1:])
+			if p.IcptNil == pos[id]+1 {
+				pos[id]++ // the nil entry records nothing
+			}
 			if j == pos[id] {
 				pos[id]++
 			} else if j > pos[id] {
@@ -495,6 +501,9 @@ func (r *rig) judge() *gx.Outcome {
 						hc[string(h.Key)]++
 					}
 					for j := 0; j < p.Icpt; j++ {
+						if p.IcptNil == j+1 {
+							continue
+						}
 						if hc["i"+strconv.Itoa(j)] != 1 {
 							out.Violate("C18", "producer-interceptor-twice", "record %s in the log shows %d applications of interceptor %d (headers %s)", x.ID, hc["i"+strconv.Itoa(j)], j, hdrs(x.Headers))
 						}
